@@ -279,7 +279,9 @@ class CoapH(explore.Harness):
 
     def canon(self):
         e = self.enc
-        return (e.send_ctr, e.recv_ctr, e.event_ctr, e.coap_ctx is None, self.acc_rx, self.acc_tx, self.acc_ev, tuple((t.done(), t.cancelled()) for t in self.tasks),
+        from vt import canon as _c
+
+        return (_c.canon(e, depth=1, skip=("recv_ctx", "send_ctx", "event_ctx", "coap_ctx", "lock")), e.lock.locked(), e.send_ctr, e.recv_ctr, e.event_ctr, e.coap_ctx is None, self.acc_rx, self.acc_tx, self.acc_ev, tuple((t.done(), t.cancelled()) for t in self.tasks),
                 len([1 for r, _ in self.ctx.pending if not r.response.done()]), len(self.sent), len(self.sent_ev),
                 tuple(sorted(round(h._when - self.loop.time(), 6) for h in self.loop._scheduled if not h._cancelled)))
 
